@@ -46,14 +46,18 @@ class SymKernel(object):
                 argv.append(e)
             else:
                 argv.append(a)
+        n_ev = len(self.m.mem_events)
         r = self.m.call(fname, argv)
-        self._last_events = list(self.m.mem_events)
+        if len(self.m.mem_events) > n_ev and self.env is not None:
+            # a feasible path of this call performed an illegal access: that path was cut, so report now
+            self.check_memory_safe("memory safety of %s()" % fname)
         if r is None or isinstance(r, (self.exe.Ptr, self.exe.Fn)):
             return r
         if type(r) is int:
             if signed and r >> (bits - 1):
                 r -= 1 << bits
             return r
+        bits = r.size()
         if signed:
             return core.SymInt.make(r, bits)
         return core.SymInt.make(z3.ZeroExt(1, r), bits + 1, nn=True)
@@ -96,6 +100,86 @@ class SymKernel(object):
 
     def written_objects(self):
         return [o.name for o in self.m.objs if o.written and o.kind in ('global', 'arg')]
+
+    def reset_written(self):
+        for o in self.m.objs:
+            o.written = False
+
+    def field_off(self, struct, idx):
+        from . import ir
+        t = self.m.mod.structs[struct]
+        ir.layout(t)
+        return t.offsets[idx]
+
+    def sizeof(self, struct):
+        from . import ir
+        return ir.layout(self.m.mod.structs[struct]).size
+
+    def peek(self, p, off, n):
+        """integer field of a C object"""
+        from vlib.pysym import core
+        import z3
+        v = self.m.load(self.exe.Ptr(p.obj, p.off + off), n)
+        if type(v) is int:
+            return v
+        return core.SymInt.make(z3.ZeroExt(1, v), 8 * n + 1, nn=True)
+
+    def poke(self, p, off, n, v):
+        from vlib.pysym import core
+        import z3
+        if isinstance(v, core.SymInt):
+            e = v.e
+            v = z3.Extract(8 * n - 1, 0, e) if v.w > 8 * n else (z3.ZeroExt(8 * n - v.w, e) if v.w < 8 * n else e)
+        self.m.store(self.exe.Ptr(p.obj, p.off + off), n, v)
+
+    def deref(self, p, off=0):
+        """pointer stored at p+off"""
+        return self.m.load(self.exe.Ptr(p.obj, p.off + off), 8)
+
+    def ptr_slot(self):
+        """an 8-byte out-parameter for `T **pResult`"""
+        o = self.m.new_obj(8, 'arg', 'pResult', init=0)
+        return self.exe.Ptr(o, 0)
+
+    def block_cipher(self, name, key, block_len):
+        """a BlockBase {encrypt, decrypt, destructor, block_len} whose encrypt/decrypt are the
+        uninterpreted E/D of vlib.pysym.natives (bijective per key)"""
+        from vlib.pysym import natives, core
+        m = self.m
+        exe = self.exe
+        kelems = core.to_elems(key)
+        o = m.new_obj(32, 'heap', 'BlockBase(%s)' % name, init=0)
+        me = self
+
+        def enc(mach, a, dec=False):
+            st, inp, outp, n = a
+            n = mach._cint(n)
+            if n % block_len:
+                return 3
+            data = [mach._byte(*mach._at(inp, i)) for i in range(n)]
+            mach._check(inp, n, False)
+            res = []
+            for i in range(0, n, block_len):
+                blk = data[i:i + block_len]
+                res.extend(natives.D(name, kelems, blk) if dec else natives.E(name, kelems, blk))
+            mach._check(outp, n, True)
+            for i, x in enumerate(res):
+                mach._store_raw(outp.obj, outp.off + i, 1, x)
+            return 0
+
+        def destructor(mach, a):
+            mach.free(a[0])
+            return 0
+        tag = "%d" % o.oid
+        m.stubs['stub_enc_' + tag] = lambda mach, a: enc(mach, a, False)
+        m.stubs['stub_dec_' + tag] = lambda mach, a: enc(mach, a, True)
+        m.stubs['stub_del_' + tag] = destructor
+        m._store_raw(o, 0, 8, exe.Fn('stub_enc_' + tag))
+        m._store_raw(o, 8, 8, exe.Fn('stub_dec_' + tag))
+        m._store_raw(o, 16, 8, exe.Fn('stub_del_' + tag))
+        m._store_raw(o, 24, 8, block_len)
+        o.written = False
+        return exe.Ptr(o, 0)
 
 
 # ---------------------------------------------------------------------------------------------
@@ -216,6 +300,62 @@ class RealKernel(object):
 
     def written_objects(self):
         return []
+
+    def reset_written(self):
+        pass
+
+    _OFFS = {}
+
+    def field_off(self, struct, idx):
+        # same x86-64 layout as computed from the IR: ask the IR (no z3 needed for layout)
+        from . import build, ir
+        key = (self.cfile, struct)
+        t = self._OFFS.get(key)
+        if t is None:
+            t = build.module(self.cfile).structs[struct]
+            ir.layout(t)
+            self._OFFS[key] = t
+        return t.offsets[idx]
+
+    def peek(self, p, off, n):
+        if isinstance(p, int):
+            return int.from_bytes(ctypes.string_at(p + off, n), 'little')
+        return int.from_bytes(self.read(p, n, off), 'little')
+
+    def poke(self, p, off, n, v):
+        data = int(v).to_bytes(n, 'little')
+        addr = p + off if isinstance(p, int) else p.addr() + off
+        ctypes.memmove(addr, data, n)
+
+    def deref(self, p, off=0):
+        return self.peek(p, off, 8)
+
+    def ptr_slot(self):
+        return self.buf(bytes(8), True, 'pResult')
+
+    def block_cipher(self, name, key, block_len):
+        """real BlockBase whose callbacks call the library's ECB primitive"""
+        P = self.env.P
+        key = bytes(key)
+        FT = ctypes.CFUNCTYPE(ctypes.c_int, ctypes.c_void_p, ctypes.c_void_p, ctypes.c_void_p, ctypes.c_size_t)
+        DT = ctypes.CFUNCTYPE(ctypes.c_int, ctypes.c_void_p)
+
+        def mk(dec):
+            def f(st, inp, outp, n):
+                if n % block_len:
+                    return 3
+                data = ctypes.string_at(inp, n)
+                res = b"".join((P.D if dec else P.E)(name, key, data[i:i + block_len]) for i in range(0, n, block_len))
+                ctypes.memmove(outp, res, n)
+                return 0
+            return FT(f)
+        e, d, x = mk(False), mk(True), DT(lambda st: 0)
+
+        class BB(ctypes.Structure):
+            _fields_ = [("e", FT), ("d", FT), ("x", DT), ("bl", ctypes.c_size_t)]
+        bb = BB(e, d, x, block_len)
+        self.bufs_keep = getattr(self, 'bufs_keep', []) + [bb, e, d, x]
+        return ctypes.addressof(bb)
 
 
 def kernel(env, cfile, stubs=None, extra_macros=()):
